@@ -13,6 +13,7 @@ type traversePreferences struct {
 	DontAutoCreate       bool // by default, we automatically create entries on the fly.
 	DontIncludeMapValues bool
 	OptionalTraverse     bool // e.g. .adf?
+	ExactKeyMatch        bool // the key is data (an element of a path), not a pattern: * and ? match themselves only
 }
 
 func splat(context Context, prefs traversePreferences) (Context, error) {
@@ -240,7 +241,10 @@ func traverseArrayWithIndices(context Context, node *CandidateNode, indices []*C
 	return newMatches, nil
 }
 
-func keyMatches(key *CandidateNode, wantedKey string) bool {
+func keyMatches(key *CandidateNode, wantedKey string, prefs traversePreferences) bool {
+	if prefs.ExactKeyMatch {
+		return key.Value == wantedKey
+	}
 	return matchKey(key.Value, wantedKey)
 }
 
@@ -311,7 +315,7 @@ func doTraverseMergedMap(newMatches *orderedmap.OrderedMap, node *CandidateNode,
 			if err != nil {
 				return err
 			}
-		} else if splat || keyMatches(key, wantedKey) {
+		} else if splat || keyMatches(key, wantedKey, prefs) {
 			log.Debug("MATCHED")
 			if prefs.IncludeMapKeys {
 				log.Debug("including key")
